@@ -1609,3 +1609,47 @@ def torn_scenarios(rng):
                     cfg["block_size"] = bs
                     out.append({"cfg": cfg, "steps": st, "flavour": "torn-scenario"})
     return out
+
+
+def uring_mix_scenarios(rng):
+    """Deterministic family: a descriptor opened through the std or the tokio shim with every
+    OpenOptions combination (read-only, write-only, append-only, append+read, append+write,
+    create / create_new / truncate, and the combinations std rejects), on an existing file and
+    on a fresh path, then used through io_uring (write, read, fsync on the raw fd) mixed with
+    the shim's own calls on the same handle and with path operations of the other front-end."""
+    out = []
+    for flags in OPEN_VALID + OPEN_INVALID[:4]:
+        for existing in (True, False):
+            for tok in (False, True):
+                st = [["mkdir", 0, "/d"]]
+                if existing:
+                    st.append(["spit", 0, "/d/a", [48, 49, 50, 51, 52]])
+                st.append(["open", 0, 1, "/d/a", flags + ("k" if tok else "")])
+                off = rng.choice([0, 2, 5, 7])
+                st += [["write_at@u", 0, 1, off, rand_bytes(rng, 1, 3)],
+                       ["read_at@u", 0, 1, rng.choice([0, 1, 4]), 8],
+                       ["sync_all@u", 0, 1],
+                       ["write_at" + ("@t" if tok else ""), 0, 1, rng.choice([0, 3, 6]), rand_bytes(rng, 1, 2)],
+                       ["write", 0, 1, rand_bytes(rng, 1, 2)],
+                       ["read_at@u", 0, 1, 0, 16],
+                       ["flen", 0, 1],
+                       ["write_at@u", 0, 1, rng.choice([1, 9]), rand_bytes(rng, 1, 2)],
+                       ["slurp" + ("" if tok else "@t"), 0, "/d/a"],
+                       ["read_at", 0, 1, 0, 16],
+                       ["close", 0, 1],
+                       ["write_at@u", 0, 1, 0, [33]],
+                       ["dump", 0]]
+                out.append({"cfg": base_cfg(rng, 1), "steps": st, "flavour": "uring-mix-scenario"})
+    return out
+
+
+def with_uring(case, rng, p=0.35):
+    """the same script with some positional writes / reads / fsyncs submitted through io_uring
+    on the descriptor the shim opened (direct mode only)"""
+    steps = []
+    for st in case["steps"]:
+        if st[0] in ("write_at", "read_at", "sync_all", "write_at@t", "read_at@t", "sync_all@t") and rng.random() < p:
+            st = [st[0].split("@")[0] + "@u"] + list(st[1:])
+        steps.append(st)
+    c = {"cfg": dict(case["cfg"]), "steps": steps, "flavour": case.get("flavour", "") + "+uring"}
+    return c
